@@ -331,6 +331,7 @@ type OblResult struct {
 	Kind    string        `json:"kind"`
 	Status  string        `json:"status"` // discharged | refuted | undecided | cover-ok | cover-failed
 	Clause  string        `json:"clause,omitempty"`
+	Where   string        `json:"where,omitempty"`
 	Quote   string        `json:"property_sentence,omitempty"`
 	Solve   SolveResult   `json:"solve"`
 	obl     *Obligation
@@ -356,7 +357,7 @@ func solveAll(obls []*Obligation, timeout int, seed int, agree bool, par int) []
 			defer wg.Done()
 			sem <- struct{}{}
 			defer func() { <-sem }()
-			r := &OblResult{Name: o.Name, Class: o.Class, Func: o.FuncKey, Kind: o.Kind, obl: o}
+			r := &OblResult{Name: o.Name, Class: o.Class, Func: o.FuncKey, Kind: o.Kind, obl: o, Where: o.Where}
 			if o.Clause != nil {
 				r.Clause = o.Clause.Text
 				r.Quote = o.Clause.Quote
